@@ -70,6 +70,7 @@ pub fn strategy(opts: &SrcOpts) -> BoxedStrategy<Choice> {
     1 => any::<Index>().prop_map(RC::Kind),
     3 => (any::<Index>(), 0u8..2).prop_map(|(i, f)| RC::Regex(i, f)),
     1 => (any::<Index>(), 2u8..6).prop_map(|(i, f)| RC::Regex(i, f)),
+    2 => pattern_rc(),
   ];
   (
     gen::src_choice(opts),
@@ -197,7 +198,7 @@ pub struct FamChoice {
 
 pub fn family_strategy() -> BoxedStrategy<FamChoice> {
   (
-    (0u8..4, prop::collection::vec(prop::collection::vec((0u8..5, 0u8..10), 1..5), 1..4), 0u8..10),
+    (0u8..4, prop::collection::vec(prop::collection::vec((0u8..5, 0u8..10), 1..5), 1..4), 0u8..11),
     (0u8..4, 0u8..4, any::<u8>(), any::<u8>(), any::<u8>(), any::<u8>(), any::<bool>(), (0u8..3, 0u8..3, 0u8..3), 0u8..5),
   )
     .prop_map(|((lang, stmts, family), (rel, rel2, out, bind, bind2, filt, end, vars, field))| FamChoice {
@@ -280,6 +281,7 @@ pub fn interpret_family(ch: &FamChoice, st: &mut Stats) -> Option<Case> {
   };
   let mut utils = vec![];
   let mut globals = vec![];
+  let mut constraints: Vec<(String, GRule)> = vec![];
   let rule = match ch.family {
     0 => GRule::Obj(vec![out, rel_of(ch.rel, GRule::All(vec![bind, filt]))]),
     1 => {
@@ -305,6 +307,13 @@ pub fn interpret_family(ch: &FamChoice, st: &mut Stats) -> Option<Case> {
       } else {
         GRule::Obj(vec![out, rel_of(ch.rel, bind), rel_of(ch.rel2, bind2)])
       }
+    }
+    // two constraints whose patterns share a variable that the rule itself does not bind: both
+    // occurrences must be the same code
+    10 => {
+      constraints.push(("L".to_string(), bind));
+      constraints.push(("R".to_string(), if ch.end { bind2 } else { GRule::All(vec![bind2, filt]) }));
+      fam_pattern(["$Y($L, $R)", "$Y($R, $L)", "f($L, $R)", "$Y($L, $$$, $R)"][ch.out as usize % 4], "X", pv(ch.vars.0))
     }
     // the negated rule is itself the candidate test: a candidate rejected because the operand
     // matched must leave nothing behind for the next candidate
@@ -334,7 +343,7 @@ pub fn interpret_family(ch: &FamChoice, st: &mut Stats) -> Option<Case> {
     rule,
     utils,
     globals,
-    constraints: vec![],
+    constraints,
   })
 }
 
@@ -631,6 +640,9 @@ pub fn check(case: &Case, st: &mut Stats) -> CheckResult {
   let mut pos_single = BTreeSet::new();
   let mut pos_multi = BTreeSet::new();
   positive_vars(&case.rule, &all_utils, false, &mut pos_single, &mut pos_multi, 0);
+  for (_, c) in &case.constraints {
+    positive_vars(c, &all_utils, false, &mut pos_single, &mut pos_multi, 0);
+  }
   let all = tsutil::preorder(root);
   let mut matched = 0usize;
   for n in &all {
@@ -639,7 +651,11 @@ pub fn check(case: &Case, st: &mut Stats) -> CheckResult {
     if let Some(e) = &rf {
       let mut cur = e.clone();
       let mut ok = true;
-      for (var, c) in &case.constraints {
+      // one environment for all constraints, visited by variable name; only variables bound by
+      // the rule itself are constrained
+      let mut ordered: Vec<&(String, GRule)> = case.constraints.iter().filter(|(v, _)| e.single.contains_key(v)).collect();
+      ordered.sort_by(|a, b| a.0.cmp(&b.0));
+      for (var, c) in ordered {
         if let Some(bound) = cur.single.get(var).cloned() {
           match ev.eval(c, &bound, &cur) {
             Some(e2) => cur = e2,
@@ -815,7 +831,7 @@ pub fn run(cfg: &RunCfg) -> i32 {
   );
   report.assume("variables that occur only beneath `not` are compared through the verdict only (the property leaves their export open)");
   report.assume("stop rules are evaluated with an empty environment on both sides");
-  report.assume("at most one constraint per variable and constraints are variable-free, so the hash order of constraints (C13) cannot influence the outcome here");
+  report.assume("constraints are applied to the variables the rule itself bound, in the order of the variable names, on one shared environment (MetaVarEnv::match_constraints); constraint patterns draw on the same variable pool");
   let known = Known::load(&cfg.prop);
   if let Some(path) = &cfg.replay {
     if read_replay(path).stage == "renaming" {
